@@ -4055,6 +4055,13 @@ def _walk_working_dir_paths(
             if dirpath != basepath:
                 continue
 
+        # os.walk lists symlinks to directories among the directories; to git
+        # a symlink is a file, whatever it points at.
+        for dirname in list(dirnames):
+            if os.path.islink(os.path.join(dirpath, dirname)):  # type: ignore[call-overload]
+                dirnames.remove(dirname)
+                filenames.append(dirname)
+
         if precompose_unicode and isinstance(dirpath, str):
             dirpath = _precompose_unicode_path(dirpath)
             dirnames[:] = [
